@@ -9,9 +9,12 @@
 (*   a value whose type is neither Drop nor Destruct may not go out of      *)
 (*   scope (fall off the end, or be live at a `return`) on any path.        *)
 (*                                                                         *)
-(* Abstract bodies: a sequence of statements over two variables,            *)
+(* Abstract bodies: a sequence of statements over the variables Vars, a     *)
+(* subset of                                                                *)
 (*   "mv"  : movable, droppable     (a struct deriving only Drop)            *)
 (*   "nd"  : movable, NOT droppable (a struct deriving nothing)              *)
+(*   "pd"  : movable, NOT droppable, with a PanicDestruct impl only: it may  *)
+(*           be live where the flow ends with a panic, nowhere else          *)
 (* Statement kinds (v ranges over the variables):                           *)
 (*   Move(v)      let _w = v;            (moves v)                          *)
 (*   Use(v)       peek(@v);              (snapshot use: v must not be moved) *)
@@ -25,15 +28,18 @@
 (* only legal way to get rid of it).  consume and peek are `nopanic`; the   *)
 (* loops contain checked arithmetic on their counter and therefore MAY      *)
 (* PANIC: a panic is an implicit return, so a non-droppable value may not   *)
-(* be live at a statement that may panic.                                   *)
+(* be live at a statement that may panic - unless it is PanicDestruct.       *)
 (*                                                                         *)
 (* Analysis state: may (set of possibly moved variables), must (set of       *)
 (* definitely moved variables).  Legal iff no rule is violated.             *)
 (***************************************************************************)
 EXTENDS Integers, Sequences, FiniteSets, TLC
 
-Vars == {"mv", "nd"}
-NoDrop == {"nd"}
+CONSTANT Vars
+ASSUME Vars \subseteq {"mv", "nd", "pd"} /\ "mv" \in Vars
+NoDrop == Vars \cap {"nd", "pd"}
+\* the variables that must have been consumed where the flow may end with a panic
+NoPanicDrop == Vars \cap {"nd"}
 Kinds == {"Move", "Use", "IfMove", "IfElse", "IfUse", "LoopMove", "LoopUse"}
 Stmts == [k : Kinds, v : Vars] \cup {[k |-> "RetIf", v |-> "mv"]}
 
@@ -46,7 +52,7 @@ StepOwn(s, may, must) ==
     [] s.k = "IfUse" -> [may |-> may, must |-> must, bad |-> s.v \in may]
        \* the loop body may run again: a move inside it is a use-after-move on the second iteration
     [] s.k = "LoopMove" -> [may |-> may \cup {s.v}, must |-> must, bad |-> TRUE]
-    [] s.k = "LoopUse" -> [may |-> may, must |-> must, bad |-> s.v \in may \/ ~(NoDrop \subseteq must)]
+    [] s.k = "LoopUse" -> [may |-> may, must |-> must, bad |-> s.v \in may \/ ~(NoPanicDrop \subseteq must)]
        \* at a return every non-droppable variable must already have been consumed
     [] s.k = "RetIf" -> [may |-> may, must |-> must, bad |-> ~(NoDrop \subseteq must)]
 
